@@ -11,7 +11,10 @@ offering the surface paramiko documents for socket-like objects
 * `hold` mode: chunks wait in `pending` until the harness calls `release(n)` /
   `release_all()` / `release_index(i)` — latency control: the harness decides what is
   delivered next;
-* `frag`: optional iterator of maximum sizes returned by `recv`;
+* `frag`: optional iterator of maximum sizes returned by `recv`; an item `GAP` (None) means "the
+  rest has not arrived yet": that `recv` call waits out its timeout and raises `socket.timeout`
+  although bytes are buffered (a slow / segmenting link: the peer's packet arrives in pieces
+  with an idle gap in between). `set_frag(plan)` installs a finite plan atomically;
 * EOF / error injection (`set_eof()`, `set_error(exc)`);
 * `reader_blocked`: True while the receiving side sits in `recv` with nothing to read —
   for a paramiko Transport this means its thread has processed everything delivered.
@@ -19,6 +22,10 @@ offering the surface paramiko documents for socket-like objects
 import socket
 import threading
 import time
+
+
+GAP = None  # item of a `frag` plan: one receive timeout passes before the next bytes arrive
+GAP_BLOCKING = 0.1  # length of a gap for a reader without a timeout
 
 
 class Direction:
@@ -37,6 +44,7 @@ class Direction:
         self.delivered = []  # chunks made available to the receiver
         self.reader_blocked = False
         self.reads = 0
+        self.gaps = 0
         self.bytes_delivered = 0
 
     # -- sender side
@@ -125,6 +133,11 @@ class Direction:
                 self.cv.wait(left)
         return True
 
+    def set_frag(self, plan):
+        """Install a finite fragmentation plan (sizes and GAP items) for the next reads."""
+        with self.cv:
+            self.frag = iter(list(plan)) if plan else None
+
     def set_eof(self):
         with self.cv:
             self.eof = True
@@ -158,9 +171,23 @@ class Direction:
             k = n
             if self.frag is not None:
                 try:
-                    k = max(1, min(n, next(self.frag)))
+                    item = next(self.frag)
                 except StopIteration:
                     self.frag = None
+                    item = n
+                if item is GAP:
+                    # bytes are buffered but "still on their way": this read sees an idle link
+                    self.gaps += 1
+                    gap_end = time.time() + (GAP_BLOCKING if timeout is None else timeout)
+                    while not self.eof and self.error is None:
+                        left = gap_end - time.time()
+                        if left <= 0:
+                            break
+                        self.cv.wait(left)
+                    if timeout is not None:
+                        raise socket.timeout()
+                    item = n
+                k = max(1, min(n, item))
             out = bytes(self.buf[:k])
             del self.buf[:k]
             self.reads += 1
